@@ -758,13 +758,13 @@ func runFlex(c flexCase, r *pb.Rec) error {
 }
 
 func init() {
-	pb.Register("slice_functions", pb.Options{Base: 40000, Required: []string{"slice longer than 32", "dst aliases an input with duplicates present", "in-place variant", "nil slice", "argument out of range", "short last chunk", "process error propagated", "fresh memory checked"},
+	pb.Register("slice_functions", pb.Options{Twins: 3, Base: 40000, Required: []string{"slice longer than 32", "dst aliases an input with duplicates present", "in-place variant", "nil slice", "argument out of range", "short last chunk", "process error propagated", "fresh memory checked"},
 		Rule: "slices over 0..5 (duplicates common, empty, nil), dst in {nil, fresh, s1[:0], s2[:0], non-empty fresh}, predicates/keys from drawn tables, index/length/chunk arguments -3..len+3 and +-2^62; oracle: the definitions written directly (first-slice order, first occurrence, multiset + permutation for InPlace, concatenation and piece sizes, clamping tables, fresh memory); non-trivial = first slice has duplicates and >= 3 elements"},
 		genSet, runSet)
 	pb.Register("slice_functions_large", pb.Options{Base: 1500, Required: []string{"an input of >= 1024 elements", "one input at least 8 times longer than the other", "values up to 5000 or more"},
 		Rule: "Diff/Intersect/Unique/UniqueByKey/Filter, their InPlace variants and Chunk on generated slices of 0..9000 elements (lengths around 128/256/1024/4096 sampled, the two inputs of independent size so that skewed pairs are common), values below 3..100000, every DupStride-th element of s1 a duplicate of an earlier one, a third of s2 shared with s1, dst in {nil, fresh, s1[:0], s2[:0]}; oracle: the definitions (order-sensitive for the copying forms, multiset + permutation for the in-place forms); non-trivial = an input of >= 256 elements"},
 		genBig, runBig)
-	pb.Register("flexslice", pb.Options{Base: 15000, Required: []string{"capacity shrank", "prepend within capacity", "prepend reallocating", "prepend reallocating after a shrink", "prepend within capacity after a shrink", "continued on a sub-slice"},
+	pb.Register("flexslice", pb.Options{Twins: 3, Base: 15000, Required: []string{"capacity shrank", "prepend within capacity", "prepend reallocating", "prepend reallocating after a shrink", "prepend within capacity after a shrink", "continued on a sub-slice"},
 		Rule: "<= 40 operations Append(k)/Prepend(k)/Get/Remove/Pop xN/Shift xN/SubSlice (and continuing on the sub-slice) with k up to 40 so that growth and the shrink threshold (cap > 8, len <= cap/4) are crossed; oracle: slice model after every step; non-trivial = the capacity shrank at least once"},
 		genFlex, runFlex)
 }
